@@ -939,7 +939,7 @@ MUTANTS = [
          old="		return self._table_elementwise_operation(other, _reflected(operator.sub), '__rsub__', '-')",
          new="		return self._table_elementwise_operation(other, operator.sub, '__rsub__', '-')", rules=["a.dispatch"]),
     dict(id="date-add-ignores-plain-sequences", module="vector",
-         old="		if isinstance(other, (list, tuple)) and other and all(y is None or (isinstance(y, int) and not isinstance(y, bool)) for y in other):\n			# a plain sequence of day counts is handled like a vector of them\n			other = Vector(other)\n",
+         old="			if other and all(y is None or (isinstance(y, int) and not isinstance(y, bool)) for y in other):\n				other = Vector(other)\n",
          new="", rules=["e.wrappers"], desc="the defect repaired by fix 3c6ed23"),
     dict(id="rmul-forwards-to-mul", module="vector", old="		return self._elementwise_operation(other, _reverse_mul, '__rmul__', '*')",
          new="		return self.__mul__(other)", rules=["a.dispatch"], desc="the defect repaired by fix 6ecf214"),
